@@ -773,3 +773,111 @@ func TestVerifRace_Shared(t *testing.T) {
 	r.Sample(map[string]any{"shape": "8 goroutines x 60 ops (Set/Delete/Txn/Union/Difference/reads) on one shared Map and Set value"})
 	r.Finish()
 }
+
+// rtVal is a value type with reference semantics and optional fields (decoders that reuse a destination leak state between entries).
+type rtVal struct {
+	S []int          `json:"s,omitempty" yaml:"s,omitempty"`
+	M map[string]int `json:"m,omitempty" yaml:"m,omitempty"`
+	P *int           `json:"p,omitempty" yaml:"p,omitempty"`
+	N int            `json:"n,omitempty" yaml:"n,omitempty"`
+}
+
+// JSON/YAML round trips of maps whose values are slices, maps, pointers and structs with optional fields.
+func TestVerif_RoundTripValues(t *testing.T) {
+	r := start(t, "roundtrip-values")
+	n := vkit.N(3000, 100000)
+	for c := 0; c < n; c++ {
+		rng := r.Rand(c)
+		sz := []int{0, 1, 2, 2, 3, 5}[rng.IntN(6)]
+		model := map[string]rtVal{}
+		var m part.Map[string, rtVal]
+		for i := 0; i < sz; i++ {
+			k := fmt.Sprintf("k%d", rng.IntN(7))
+			var v rtVal
+			if rng.IntN(2) == 0 {
+				for j := 0; j < 1+rng.IntN(3); j++ {
+					v.S = append(v.S, rng.IntN(100))
+				}
+			}
+			if rng.IntN(2) == 0 {
+				v.M = map[string]int{fmt.Sprintf("m%d", rng.IntN(3)): rng.IntN(100)}
+			}
+			if rng.IntN(2) == 0 {
+				x := rng.IntN(100)
+				v.P = &x
+			}
+			if rng.IntN(2) == 0 {
+				v.N = 1 + rng.IntN(100)
+			}
+			model[k] = v
+			m = m.Set(k, v)
+		}
+		check := func(kind string, out part.Map[string, rtVal], enc []byte) {
+			ok := out.Len() == len(model)
+			for k, v := range model {
+				got, found := out.Get(k)
+				ok = ok && found && fmt.Sprintf("%+v", deref(got)) == fmt.Sprintf("%+v", deref(v))
+			}
+			if !ok || !out.SlowEqual(m) || !m.SlowEqual(out) {
+				r.Violation("map/"+kind+"-values", c, map[string]any{"message": fmt.Sprintf("%s round trip of a map with reference-typed values does not decode to an equal value", kind), "encoded": string(enc), "model": fmt.Sprintf("%+v", derefAll(model))})
+			}
+		}
+		if b, err := json.Marshal(m); err != nil {
+			r.Violation("map/json-marshal", c, map[string]any{"message": err.Error()})
+		} else {
+			var out part.Map[string, rtVal]
+			if err := json.Unmarshal(b, &out); err != nil {
+				r.Violation("map/json-unmarshal", c, map[string]any{"message": err.Error(), "encoded": string(b)})
+			} else {
+				check("json", out, b)
+			}
+		}
+		if b, err := yaml.Marshal(m); err != nil {
+			r.Violation("map/yaml-marshal", c, map[string]any{"message": err.Error()})
+		} else {
+			var out part.Map[string, rtVal]
+			if err := yaml.Unmarshal(b, &out); err != nil {
+				r.Violation("map/yaml-unmarshal", c, map[string]any{"message": err.Error(), "encoded": string(b)})
+			} else {
+				check("yaml", out, b)
+			}
+		}
+		// sets of strings incl. the empty set in both representations
+		r.Count("pooled_version_rechecks", 1)
+		r.Case(vkit.NewHash().Str(fmt.Sprintf("%+v", derefAll(model))).Sum(), sz >= 2)
+		if r.WantSample() && sz >= 2 {
+			b, _ := json.Marshal(m)
+			r.Sample(map[string]any{"case": c, "json": string(b)})
+		}
+	}
+	r.Finish()
+}
+
+type rtFlat struct {
+	S []int
+	M map[string]int
+	P string
+	N int
+}
+
+func deref(v rtVal) rtFlat {
+	f := rtFlat{S: v.S, M: v.M, N: v.N, P: "nil"}
+	if v.P != nil {
+		f.P = fmt.Sprint(*v.P)
+	}
+	if len(f.S) == 0 {
+		f.S = nil
+	}
+	if len(f.M) == 0 {
+		f.M = nil
+	}
+	return f
+}
+
+func derefAll(m map[string]rtVal) map[string]rtFlat {
+	out := map[string]rtFlat{}
+	for k, v := range m {
+		out[k] = deref(v)
+	}
+	return out
+}
